@@ -55,6 +55,18 @@ def intoTrackVecIndex (line : Int) (c : GridPlacement.TrackCounts) : GridPlaceme
   let u ← GridPlacement.usize t
   GridPlacement.usize (2 * u)
 
+/-- `OriginZeroLine::try_into_track_vec_index`: `None` for a line outside of the implicit grid (the `||` short-circuits:
+the second comparison and its checked operations are evaluated only when the first is false) -/
+def tryIntoTrackVecIndex (line : Int) (c : GridPlacement.TrackCounts) : GridPlacement.Outcome (Option Int) := do
+  let n ← GridPlacement.i16 c.negativeImplicit
+  let negN ← GridPlacement.i16 (-n)
+  if line < negN then pure none else do
+  let s ← GridPlacement.u16 (c.explicit + c.positiveImplicit)
+  let s16 ← GridPlacement.i16 s
+  if line > s16 then pure none else do
+  let i ← intoTrackVecIndex line c
+  pure (some i)
+
 /-- `resolve_item_track_indexes` (`… as u16`) -/
 def resolveItemTrackIndexes (items : List (GItem α)) (colCounts rowCounts : GridPlacement.TrackCounts) :
     GridPlacement.Outcome (List (GItem α)) :=
